@@ -16,6 +16,10 @@ import (
 
 var trace *[]string
 
+// (not inlined: every value it returns is a closure of the same function literal, as with any middleware or
+// handler constructor used more than once; their code pointers are equal, only their captured values differ)
+//
+//go:noinline
 func mw(id string) fox.MiddlewareFunc {
 	return func(next fox.HandlerFunc) fox.HandlerFunc {
 		return func(c fox.Context) {
@@ -26,6 +30,10 @@ func mw(id string) fox.MiddlewareFunc {
 	}
 }
 
+// (not inlined: every value it returns is a closure of the same function literal, as with any middleware or
+// handler constructor used more than once; their code pointers are equal, only their captured values differ)
+//
+//go:noinline
 func handler(id string) fox.HandlerFunc {
 	return func(c fox.Context) {
 		*trace = append(*trace, id)
